@@ -292,4 +292,112 @@ class VectorsFromPriosH(Harness):
         return {"violated": violated, "detail": {"handed_to_compress": None if arr is None else arr.tolist()}}
 
 
-HARNESSES = [CcAnyH(), CcXorH(), DefaultPriosH(), VectorsFromPriosH()]
+class ObjectiveStructureH(Harness):
+    """The objective vector end to end: the real `_vectors_from_prios` INCLUDING the real shadow compression (the compiled
+    bit allocation replaced by the executable form of A-rs2), for 2-3 columns, default levels in {-1, -2} (symbolic) and
+    symbolic user priorities on a named subset of the columns.  The vector has the dominance structure from which the
+    lexicographic ranking of the property follows (Lean: dominance_two_level):
+      objective.sign        a column with a non-zero user priority carries that priority's sign; every other column is
+                            negative (not selecting it is preferred)
+      objective.levels      equal user magnitudes -> equal weights; among the other columns equal default levels -> equal
+                            weights
+      objective.dominance   a user-prioritised column outweighs the sum of ALL columns of lower rank (smaller user
+                            magnitude, and every column without user priority); a -2 column outweighs the sum of all -1
+                            columns"""
+    name = "ge_polyhedron_config._vectors_from_prios(end-to-end)"
+    function = "ge_polyhedron_config._vectors_from_prios"
+    module = "puan.ndarray"
+    functions = ["ge_polyhedron_config._vectors_from_prios", "integer_ndarray.ndint_compress", "integer_ndarray.reduce2d"]
+    numpy_mode = "sym"
+    rs_model = True
+
+    def cases(self):
+        return [{"cols": 2, "named": [0]}, {"cols": 2, "named": [0, 1]}, {"cols": 3, "named": [1]}, {"cols": 3, "named": [0, 2]}]
+
+    def setup(self, c, case):
+        from .c12 import sym_polyhedron
+        pnd = c.repo.load("puan.ndarray")
+        k = case["cols"]
+        p, A, b, lo, hi = sym_polyhedron(c, 1, k)
+        dv = [SInt(z3.Int(f"dv{j}")) for j in range(k)]
+        for d in dv:
+            c.assume_global(z3.Or(d.t == -1, d.t == -2))
+        cfg = pnd.ge_polyhedron_config(p, default_prio_vector=pnd.integer_ndarray(dv), variables=p.variables, index=p.index)
+        prio = {f"v{j}": SInt(z3.Int(f"p{j}")) for j in case["named"]}
+        for v in prio.values():
+            c.assume_global(z3.And(v.t > -(2 ** 20), v.t < 2 ** 20))
+        return {"cfg": cfg, "dv": dv, "prio": prio}
+
+    def run(self, c, st):
+        c.nd_epoch = 1
+        return st["cfg"]._vectors_from_prios([dict(st["prio"])])
+
+    def ensures(self, c, st, res):
+        from pyvc.sym import site
+        k = c.state_case["cols"]
+        out = [("objective.shape", tuple(res.shape) == (1, k))]
+        if not out[0][1]:
+            return out
+        o = [res[0][j] for j in range(k)]
+        dv = st["dv"]
+        u = [st["prio"].get(f"v{j}", 0) for j in range(k)]
+        ab = lambda x: site(x < 0, -x, x)
+        user = [u[j] != 0 for j in range(k)]
+        sign = True
+        for j in range(k):
+            sign = band(sign, implies(user[j], (o[j] > 0) == (u[j] > 0)), implies(user[j], o[j] != 0), implies(bnot(user[j]), o[j] < 0))
+        levels = True
+        for j in range(k):
+            for t in range(k):
+                levels = band(levels, implies(band(user[j], user[t], ab(u[j]) == ab(u[t])), ab(o[j]) == ab(o[t])),
+                              implies(band(bnot(user[j]), bnot(user[t]), dv[j] == dv[t]), o[j] == o[t]))
+        dom = True
+        for j in range(k):
+            lower_user = 0
+            lower_def = 0
+            for t in range(k):
+                below_u = bor(bnot(user[t]), band(user[t], ab(u[t]) < ab(u[j])))
+                lower_user = lower_user + site(below_u, ab(o[t]), 0)
+                lower_def = lower_def + site(band(bnot(user[t]), dv[t] == -1), ab(o[t]), 0)
+            dom = band(dom, implies(user[j], ab(o[j]) > lower_user),
+                       implies(band(bnot(user[j]), dv[j] == -2), ab(o[j]) > lower_def))
+        out += [("objective.sign", sign), ("objective.levels", levels), ("objective.dominance", dom)]
+        return out
+
+    def concretise(self, case, k, model, c, st):
+        from .common import _mv
+        return {"cols": case["cols"], "dv": [_mv(model, v.t) for v in st["dv"]],
+                "prio": {key: _mv(model, v.t) for key, v in st["prio"].items()}}
+
+    def replay(self, w):
+        import numpy as np
+        import puan
+        import puan.ndarray as pnd
+        k = w["cols"]
+        vs = [puan.variable(0, (1, 1))] + [puan.variable(f"v{j}") for j in range(k)]
+        p = pnd.ge_polyhedron([[0] + [1] * k], variables=vs, index=[puan.variable("r0")])
+        cfg = pnd.ge_polyhedron_config(p, default_prio_vector=pnd.integer_ndarray(w["dv"]), variables=p.variables, index=p.index)
+        o = [int(x) for x in np.asarray(cfg._vectors_from_prios([dict(w["prio"])]))[0]]
+        u = [w["prio"].get(f"v{j}", 0) for j in range(k)]
+        violated = []
+        for j in range(k):
+            if (u[j] != 0 and ((o[j] > 0) != (u[j] > 0) or o[j] == 0)) or (u[j] == 0 and not o[j] < 0):
+                violated.append("objective.sign")
+        for j in range(k):
+            for t in range(k):
+                if u[j] and u[t] and abs(u[j]) == abs(u[t]) and abs(o[j]) != abs(o[t]):
+                    violated.append("objective.levels")
+                if not u[j] and not u[t] and w["dv"][j] == w["dv"][t] and o[j] != o[t]:
+                    violated.append("objective.levels")
+        for j in range(k):
+            if u[j]:
+                lower = sum(abs(o[t]) for t in range(k) if not u[t] or abs(u[t]) < abs(u[j]))
+                if not abs(o[j]) > lower:
+                    violated.append("objective.dominance")
+            elif w["dv"][j] == -2:
+                if not abs(o[j]) > sum(abs(o[t]) for t in range(k) if not u[t] and w["dv"][t] == -1):
+                    violated.append("objective.dominance")
+        return {"violated": sorted(set(violated)), "detail": {"default_levels": w["dv"], "prio": w["prio"], "objective": o}}
+
+
+HARNESSES = [CcAnyH(), CcXorH(), DefaultPriosH(), VectorsFromPriosH(), ObjectiveStructureH()]
